@@ -13,6 +13,7 @@ import (
 	"strconv"
 	"strings"
 	"sync"
+	"sync/atomic"
 	"testing"
 	"time"
 
@@ -27,7 +28,7 @@ const maxDepth = 3
 const absentID = uint64(1) << 62
 
 type sop struct {
-	k       byte // s u f p g c S(gs) U(gu)
+	k       byte // s u f p g c S(gs) U(gu) H(gsh)
 	c, e, t int
 	g       bool
 	a       []int
@@ -52,12 +53,27 @@ type kase struct {
 	used    map[int]bool
 	realID  map[int]uint64
 	tagCtr  map[int]int
+	hooked  map[int]bool
 	fnTag   map[int]int // light listeners with a code pointer of their own (8..15): code pointer -> tag
 	depth   int
 	aborted bool
 	mu      sync.Mutex
 	toks    []string
 	jobs    chan func()
+}
+
+// hookedEC is a local centre whose GetId() runs a one-shot hook.
+type hookedEC struct {
+	*event.LocalEventCenter
+	hook func()
+}
+
+func (h *hookedEC) GetId() uint64 {
+	if f := h.hook; f != nil {
+		h.hook = nil
+		f()
+	}
+	return h.LocalEventCenter.GetId()
 }
 
 // hidden first bound argument that identifies a light listener sharing a code pointer
@@ -120,6 +136,11 @@ func parseOp(s string) (sop, bool) {
 		c, ok1 := num(1)
 		e, ok2 := num(2)
 		return sop{k: 'p', c: c, e: e, a: parseInts(p[3], "_")}, ok1 && ok2
+	case len(p) == 4 && p[0] == "gsh":
+		e, ok1 := num(1)
+		c, ok2 := num(2)
+		t, ok3 := num(3)
+		return sop{k: 'H', e: e, c: c, t: t}, ok1 && ok2 && ok3
 	case len(p) == 3 && (p[0] == "gs" || p[0] == "gu"):
 		e, ok1 := num(1)
 		c, ok2 := num(2)
@@ -161,10 +182,8 @@ func toArgs(xs []int) []interface{} {
 	return out
 }
 
-// invoke is what every listener does: log the call, then perform its script.
-func (k *kase) invoke(tag int, args []interface{}) {
+func showArgs(args []interface{}) string {
 	var sb strings.Builder
-	fmt.Fprintf(&sb, "i%d:", tag)
 	for i, a := range args {
 		if i > 0 {
 			sb.WriteByte('.')
@@ -175,9 +194,19 @@ func (k *kase) invoke(tag int, args []interface{}) {
 			sb.WriteString("?")
 		}
 	}
-	k.tok(sb.String())
+	return sb.String()
+}
+
+// invoke is what every listener does: log the call with the arguments it received, perform its script,
+// then read its arguments again: they must still be the ones it was called with (token m<id>:<args> if not).
+func (k *kase) invoke(tag int, args []interface{}) {
+	atEntry := showArgs(args)
+	k.tok(fmt.Sprintf("i%d:%s", tag, atEntry))
 	if tm := k.tmpls[tag]; tm != nil {
 		k.runOps(tm.script)
+	}
+	if after := showArgs(args); after != atEntry {
+		k.tok(fmt.Sprintf("m%d:%s", tag, after))
 	}
 }
 
@@ -263,7 +292,9 @@ func (k *kase) runOp(o sop) {
 			// code pointers 8..15 identify their (single) template; the shared ones 0..7 carry a hidden tag argument
 			var args []interface{}
 			if tm.fn%16 < 8 {
-				args = append([]interface{}{tagArg{o.t}}, toArgs(tm.bound)...)
+				// capacity = length: the harness itself must not hand over a slice with room to spare
+				args = make([]interface{}, 0, 1+len(tm.bound))
+				args = append(append(args, tagArg{o.t}), toArgs(tm.bound)...)
 			} else {
 				args = toArgs(tm.bound)
 				k.fnTag[tm.fn%16] = o.t
@@ -344,6 +375,31 @@ func (k *kase) runOp(o sop) {
 			}
 		}
 		k.tok("g:" + joinInts(grew, "."))
+	case 'H':
+		// Subscribe through a wrapper centre whose GetId() — called by the global centre after it looked the
+		// name's list up and before it stores the centre — performs the racing script (once)
+		c := k.centre(o.c)
+		if c == nil || c.loc == nil {
+			k.tok("bad")
+			return
+		}
+		if k.hooked[o.t] {
+			k.tok("dup")
+			return
+		}
+		k.hooked[o.t] = true
+		var sc []sop
+		if tm := k.tmpls[o.t]; tm != nil {
+			sc = tm.script
+		}
+		w := &hookedEC{LocalEventCenter: c.loc}
+		w.hook = func() { k.runOps(sc) }
+		event.GetGlobalEC().Subscribe(k.name(o.e), w)
+		if w.hook != nil { // GetId was not called: run the racing script anyway so that the trace stays aligned
+			w.hook = nil
+			k.runOps(sc)
+		}
+		k.tok("gs")
 	case 'S', 'U':
 		// direct calls on the exported global centre (a light centre is not an ILocalEventCenter)
 		c := k.centre(o.c)
@@ -458,7 +514,7 @@ wait:
 func newCase(kinds string) *kase {
 	caseNo++
 	k := &kase{no: caseNo, tmpls: map[int]*tmpl{}, used: map[int]bool{}, realID: map[int]uint64{}, tagCtr: map[int]int{},
-		fnTag: map[int]int{}, jobs: make(chan func(), 1)}
+		fnTag: map[int]int{}, hooked: map[int]bool{}, jobs: make(chan func(), 1)}
 	if kinds != "" {
 		for _, s := range strings.Split(kinds, ",") {
 			switch s {
@@ -643,6 +699,47 @@ func concSubCase(cs, rounds int) string {
 	return fmt.Sprintf("lost=%d", lost)
 }
 
+// concRegCase: each worker owns a centre and repeatedly GSubscribes one shared name, publishes it globally, checks
+// that its own centre received something, and unsubscribes (so the name's last subscription comes and goes all the
+// time while others subscribe). A centre whose GSubscribe has returned must receive the next publication.
+func concRegCase(workers, rounds int) string {
+	rsNo++
+	name := fmt.Sprintf("creg%d-%d", caseNo, rsNo)
+	var missed int32
+	var wg sync.WaitGroup
+	for w := 0; w < workers; w++ {
+		wg.Add(1)
+		go func() {
+			defer wg.Done()
+			c := event.NewLocalEventCenter(false)
+			for i := 0; i < rounds; i++ {
+				id := c.GSubscribe(name, func(args ...interface{}) {})
+				event.GetGlobalEC().Publish(name, i)
+				got := 0
+			drain:
+				for {
+					select {
+					case <-c.GetChanEvent():
+						got++
+					default:
+						break drain
+					}
+				}
+				if got == 0 {
+					atomic.AddInt32(&missed, 1)
+				}
+				c.Unsubscribe(name, id)
+				for len(c.GetChanEvent()) > 0 {
+					<-c.GetChanEvent()
+				}
+			}
+			c.Clear()
+		}()
+	}
+	wg.Wait()
+	return fmt.Sprintf("missed=%d", atomic.LoadInt32(&missed))
+}
+
 // exec interprets one op line against the real code.
 func exec(op string) string {
 	ws := hx.Words(op)
@@ -723,6 +820,8 @@ func exec(op string) string {
 		return fmt.Sprintf("q=%d", len(ct.loc.GetChanEvent()))
 	case "rs":
 		return hx.Guard(func() string { return rsCase(hx.KVInt(ws, "n")) })
+	case "concreg":
+		return hx.Guard(func() string { return concRegCase(hx.KVInt(ws, "workers"), hx.KVInt(ws, "rounds")) })
 	case "concsub":
 		return hx.Guard(func() string { return concSubCase(hx.KVInt(ws, "cs"), hx.KVInt(ws, "rounds")) })
 	case "conc":
@@ -976,6 +1075,85 @@ func (g *gen) directCase() []string {
 	return lines
 }
 
+// raceCase: a centre subscribes a global name directly while "other goroutines" (the racing script, run inside the
+// global centre's Subscribe between list lookup and store) remove the last subscription of that name, clear its
+// centre, subscribe further centres, publish …; afterwards every registered centre must receive the publications.
+func (g *gen) raceCase() []string {
+	h, r := g.h, g.h.R
+	h.Count("family.racing-subscribe")
+	kinds := []string{"L,L", "L,C,L", "C,L", "L,L,L"}[r.Intn(4)]
+	nc := strings.Count(kinds, ",") + 1
+	lines := []string{"reset cs=" + kinds, "def t=1 b=1 f=8 s=", "def t=2 b=2 f=9 s=", "def t=3 b=3 f=10 s=", "def t=4 b= f=11 s="}
+	racing := []string{"u.0.1.1", "gu.1.0", "c.0", "u.0.1.1;s.0.1.4.1", "u.0.1.1;g.1.4", "u.0.1.1;gs.1.%d", "s.%d.1.3.1;u.0.1.1", "", "u.0.1.1;u.0.1.2"}
+	for t := 5; t <= 7; t++ {
+		sc := racing[r.Intn(len(racing))]
+		if strings.Contains(sc, "%d") {
+			sc = fmt.Sprintf(sc, r.Intn(nc))
+		}
+		lines = append(lines, fmt.Sprintf("def t=%d b= f=%d s=%s", t, 7+t, sc))
+	}
+	// centre 0 holds the only subscription(s) of name 1
+	lines = append(lines, "do ops=s.0.1.1.1")
+	if r.Intn(3) == 0 {
+		lines = append(lines, "do ops=s.0.1.2.1")
+	}
+	if r.Intn(2) == 0 {
+		lines = append(lines, fmt.Sprintf("do ops=s.%d.1.2.%d", 1+r.Intn(nc-1), r.Intn(2)))
+	}
+	for t := 5; t <= 7; t++ {
+		lines = append(lines, fmt.Sprintf("do ops=gsh.1.%d.%d", 1+r.Intn(nc-1), t), fmt.Sprintf("do ops=g.1.%d", t))
+		if r.Intn(3) == 0 {
+			lines = append(lines, fmt.Sprintf("do ops=gu.1.%d", r.Intn(nc)), "do ops=g.1.0")
+		}
+	}
+	lines = append(lines, "do ops=gsh.1.0.5", "do ops=g.1.9")
+	for c := 0; c < nc; c++ {
+		lines = append(lines, fmt.Sprintf("q c=%d", c), fmt.Sprintf("drain c=%d n=50", c))
+	}
+	return lines
+}
+
+// nestedArgsCase: listeners with bound arguments re-publish the event they are handling with other arguments
+// (nesting 1-3) and look at their own arguments again afterwards.
+func (g *gen) nestedArgsCase() []string {
+	h, r := g.h, g.h.R
+	h.Count("family.nested-args")
+	kind := []string{"T", "T", "L", "T,L"}[r.Intn(4)]
+	nc := strings.Count(kind, ",") + 1
+	lines := []string{"reset cs=" + kind}
+	nt := 2 + r.Intn(3)
+	for t := 1; t <= nt; t++ {
+		nb := 1 + r.Intn(3)
+		b := make([]int, nb)
+		for i := range b {
+			b[i] = 10*t + i
+		}
+		var sc []string
+		for j := 0; j < 1+r.Intn(2); j++ {
+			na := r.Intn(5)
+			a := make([]int, na)
+			for i := range a {
+				a[i] = 50 + r.Intn(40)
+			}
+			sc = append(sc, fmt.Sprintf("p.%d.%d.%s", r.Intn(nc), 1+r.Intn(2), joinInts(a, "_")))
+		}
+		fn := 7 + t
+		if r.Intn(2) == 0 {
+			fn = r.Intn(8)
+		}
+		lines = append(lines, fmt.Sprintf("def t=%d b=%s f=%d s=%s", t, joinInts(b, "."), fn, strings.Join(sc, ";")))
+	}
+	for t := 1; t <= nt; t++ {
+		lines = append(lines, fmt.Sprintf("do ops=s.%d.%d.%d.1", r.Intn(nc), 1+r.Intn(2), t))
+	}
+	for c := 0; c < nc; c++ {
+		for e := 1; e <= 2; e++ {
+			lines = append(lines, fmt.Sprintf("do ops=p.%d.%d.%s", c, e, g.args()))
+		}
+	}
+	return lines
+}
+
 // fullCase: the 999-slot queue: the 1000th global publication is dropped, a blocking local one hangs.
 func (g *gen) fullCase() []string {
 	h, r := g.h, g.h.R
@@ -1085,6 +1263,10 @@ func TestRun(t *testing.T) {
 			lines = g.fullCase()
 		case x >= 92:
 			lines = g.directCase()
+		case x >= 88:
+			lines = g.raceCase()
+		case x >= 84:
+			lines = g.nestedArgsCase()
 		case x < 3:
 			h.Count("family.runservice")
 			lines = []string{"reset cs=L", fmt.Sprintf("rs n=%d", h.R.Intn(40))}
@@ -1112,7 +1294,8 @@ func TestRun(t *testing.T) {
 		rounds = 5000
 	}
 	h.Count("family.concurrent-subscribe")
-	for _, op := range []string{"reset cs=L", fmt.Sprintf("concsub cs=4 rounds=%d", rounds), fmt.Sprintf("concsub cs=3 rounds=%d", rounds)} {
+	for _, op := range []string{"reset cs=L", fmt.Sprintf("concsub cs=4 rounds=%d", rounds), fmt.Sprintf("concsub cs=3 rounds=%d", rounds),
+		fmt.Sprintf("concreg workers=4 rounds=%d", 6*rounds)} {
 		run(op)
 	}
 	h.Stats["hangs"] = hangs
